@@ -54,8 +54,8 @@ fn same(list: &VecList<u8>, model: &Model) {
 // @props C03
 // @tier thorough
 // @class attempt
-// @timeout 1800
-// @mem 14
+// @timeout 3600
+// @mem 26
 // @units VecList::{new, add, remove_all, remove_first, remove_at, find_first, iter, len, is_full}, ListIterator::next
 // @bounds capacity 3; three records are stored, then an ARBITRARY subset is released (remove_all with any predicate) or the first match (remove_first), then one more record is stored (accepted iff there is room): after every step the list iterated from its head equals the reference array.  Attempt-and-report: the heap-backed containers exhaust memory in most runs (see c03_list_unlink_step for the registered formulation)
 #[kani::proof]
